@@ -882,6 +882,80 @@ fn try_reflink(src: &Src) -> R<String> {
 }
 
 
+/// needs_backup: the `match conf.backup { .. }` with guards, as a table over (mode, exists, has_backup)
+fn needs_backup(src: &Src) -> R<String> {
+    let (_, block) = find_fn(src, "needs_backup")?;
+    struct V { m: Option<ExprMatch> }
+    impl<'ast> Visit<'ast> for V { fn visit_expr_match(&mut self, m: &'ast ExprMatch) { if self.m.is_none() { self.m = Some(m.clone()); } } }
+    let mut v = V { m: None };
+    v.visit_block(block);
+    let m = v.m.ok_or("needs_backup: no match")?;
+    let mut out = String::from("false");
+    for arm in m.arms.iter().rev() {
+        let pat = quote::ToTokens::to_token_stream(&arm.pat).to_string().replace(' ', "");
+        let mode = if pat.ends_with("None") { Some(0) } else if pat.ends_with("Auto") { Some(1) } else if pat.ends_with("Numbered") { Some(2) }
+                   else if pat == "_" { None } else { return Err(format!("needs_backup: pattern {}", pat)) };
+        let guard = match &arm.guard {
+            None => "true".to_string(),
+            Some((_, g)) => {
+                let t = quote::ToTokens::to_token_stream(g).to_string().replace(' ', "");
+                if t.contains("exists()") { "file_exists".to_string() } else { return Err(format!("needs_backup: guard {}", t)) }
+            }
+        };
+        let body = quote::ToTokens::to_token_stream(&arm.body).to_string().replace(' ', "");
+        let val = if body == "false" { "false" } else if body == "true" { "true" }
+                  else if body.contains("has_backup(file)") { "has_backup" } else { return Err(format!("needs_backup: arm body {}", body)) };
+        let cond = match mode { Some(k) => format!("(mode =? {}) && {}", k, guard), None => guard };
+        out = format!("(if {} then {} else {})", cond, val, out);
+    }
+    Ok(format!("(* {}:{}  needs_backup: mode 0 none, 1 auto, 2 numbered *)\nDefinition x_needs_backup (mode : N) (file_exists has_backup : bool) : bool :=\n  {}.\n",
+               src.path, m.span().start().line, out))
+}
+
+/// the Operation::Special arm of a driver: exists -> (no_clobber -> error | unlink), then mknod
+/// result: 0 = error, 1 = mknod only, 2 = unlink then mknod
+fn special_arm(src: &Src, fname: &str, gname: &str) -> R<String> {
+    let (_, block) = find_fn(src, fname)?;
+    struct V { arm: Option<syn::Arm> }
+    impl<'ast> Visit<'ast> for V {
+        fn visit_arm(&mut self, a: &'ast syn::Arm) {
+            let p = quote::ToTokens::to_token_stream(&a.pat).to_string().replace(' ', "");
+            if p.starts_with("Operation::Special") && self.arm.is_none() { self.arm = Some(a.clone()); }
+            syn::visit::visit_arm(self, a)
+        }
+    }
+    let mut v = V { arm: None };
+    v.visit_block(block);
+    let arm = v.arm.ok_or(format!("{}: no Operation::Special arm", fname))?;
+    let body = match &*arm.body { Expr::Block(b) => b.block.clone(), _ => return Err("Special arm is not a block".into()) };
+    // statements (after logging macros): `if to.exists() { if config.no_clobber { return Err } remove_file(&to)?; }` then `copy_node(..)?;`
+    let mut stage = 0;
+    let mut table = String::new();
+    for st in &body.stmts {
+        let t = quote::ToTokens::to_token_stream(st).to_string().replace(' ', "");
+        if t.starts_with("info!") || t.starts_with("debug!") { continue; }
+        if stage == 0 {
+            let i = match st { Stmt::Expr(Expr::If(i), _) => i, _ => return Err(format!("{}: Special arm: expected `if to.exists()`", fname)) };
+            let c = quote::ToTokens::to_token_stream(&i.cond).to_string().replace(' ', "");
+            if c != "to.exists()" { return Err(format!("{}: Special arm: condition {}", fname, c)); }
+            if i.else_branch.is_some() { return Err("Special arm: unexpected else".into()); }
+            let inner: Vec<String> = i.then_branch.stmts.iter().map(|s| quote::ToTokens::to_token_stream(s).to_string().replace(' ', "")).collect();
+            if inner.len() != 2 || !inner[0].starts_with("ifconfig.no_clobber{returnErr(") || !inner[1].starts_with("remove_file(&to)?") {
+                return Err(format!("{}: Special arm: unexpected body of the exists branch: {:?}", fname, inner));
+            }
+            table = "(if target_exists then (if no_clobber then 0 else 2) else 1)".to_string();
+            stage = 1;
+        } else if stage == 1 {
+            if !t.starts_with("copy_node(&from,&to)?") { return Err(format!("{}: Special arm: expected copy_node, found {}", fname, t)); }
+            stage = 2;
+        } else { return Err(format!("{}: Special arm: trailing statement {}", fname, t)); }
+    }
+    if stage != 2 { return Err(format!("{}: Special arm incomplete", fname)); }
+    Ok(format!("(* {}:{}  {}: Operation::Special — 0 error, 1 mknod, 2 unlink then mknod *)\nDefinition {} (no_clobber target_exists : bool) : N :=\n  {}.\n",
+               src.path, arm.span().start().line, fname, gname, table))
+}
+
+
 fn main() {
     let root = std::env::args().nth(1).unwrap_or_else(|| "/repo".to_string());
     let root = Path::new(&root);
@@ -905,10 +979,15 @@ fn main() {
             emit("queue_file_range.blocks", let_function(&src, "queue_file_range", "blocks", "x_qfr_blocks", &p3, "N", &[]), &mut out);
             emit("queue_file_range.bytes", let_function(&src, "queue_file_range", "bytes", "x_qfr_bytes", &p4, "N", &[]), &mut out);
             emit("queue_file_range.off", let_function(&src, "queue_file_range", "off", "x_qfr_off", &p4, "N", &[]), &mut out);
+            emit("dispatch_worker.special", special_arm(&src, "dispatch_worker", "x_parblock_special"), &mut out);
             emit("dispatch_worker.queue_len", method_literal(&src, "dispatch_worker", "queue_len").map(|(v, l)|
                 format!("(* {}:{}  the pool's bounded queue *)\nDefinition x_pool_queue_len : N := {}.\n", src.path, l, v)), &mut out);
         }
         Err(e) => emit("parblock.rs", Err(e), &mut out),
+    }
+    match load(root, "libxcp/src/drivers/parfile.rs") {
+        Ok(src) => emit("copy_worker.special", special_arm(&src, "copy_worker", "x_parfile_special"), &mut out),
+        Err(e) => emit("parfile.rs", Err(e), &mut out),
     }
     match load(root, "libxcp/src/feedback.rs") {
         Ok(src) => emit("send", send_condition(&src), &mut out),
@@ -921,6 +1000,7 @@ fn main() {
     match load(root, "libxcp/src/backup.rs") {
         Ok(src) => {
             emit("next_backup_num", next_backup(&src), &mut out);
+            emit("needs_backup", needs_backup(&src), &mut out);
             emit("BAK_PATTTERN", str_const(&src, "BAK_PATTTERN").map(|(v, l)|
                 format!("(* {}:{}  the regular expression a backup suffix must match *)\nDefinition x_backup_pattern : string := \"{}\".\n", src.path, l, v.replace('"', "\"\""))), &mut out);
         }
